@@ -116,34 +116,6 @@ theorem agree_roundtrip (pair : String → String → String → Bool) (S : Sche
 
 /-! ### the obligation on the regenerated tables -/
 
-/-- struct, its JSON writer entry and its JSON reader entry -/
-def jsonEntries : List (String × String × String) := [
-  ("Object", "Object.MarshalJSON", "Object.UnmarshalJSON"),
-  ("Actor", "Actor.MarshalJSON", "Actor.UnmarshalJSON"),
-  ("Activity", "Activity.MarshalJSON", "Activity.UnmarshalJSON"),
-  ("IntransitiveActivity", "IntransitiveActivity.MarshalJSON", "IntransitiveActivity.UnmarshalJSON"),
-  ("Question", "Question.MarshalJSON", "Question.UnmarshalJSON"),
-  ("Collection", "Collection.MarshalJSON", "Collection.UnmarshalJSON"),
-  ("OrderedCollection", "OrderedCollection.MarshalJSON", "OrderedCollection.UnmarshalJSON"),
-  ("CollectionPage", "CollectionPage.MarshalJSON", "CollectionPage.UnmarshalJSON"),
-  ("OrderedCollectionPage", "OrderedCollectionPage.MarshalJSON", "OrderedCollectionPage.UnmarshalJSON"),
-  ("Place", "Place.MarshalJSON", "Place.UnmarshalJSON"),
-  ("Profile", "Profile.MarshalJSON", "Profile.UnmarshalJSON"),
-  ("Relationship", "Relationship.MarshalJSON", "Relationship.UnmarshalJSON"),
-  ("Tombstone", "Tombstone.MarshalJSON", "Tombstone.UnmarshalJSON"),
-  ("Link", "Link.MarshalJSON", "Link.UnmarshalJSON"),
-  ("Source", "Source.MarshalJSON", "Source.UnmarshalJSON"),
-  ("PublicKey", "PublicKey.MarshalJSON", "PublicKey.UnmarshalJSON"),
-  ("Endpoints", "Endpoints.MarshalJSON", "JSONGetActorEndpoints")]
-
-def schemaOf (name : String) : Schema :=
-  ((schema.find? (fun s => s.1 == name)).map (·.2)).getD []
-
-def jsonW (name : String) : List WRow :=
-  ((jsonEntries.find? (fun e => e.1 == name)).map (fun e => wRows jsonWrite e.2.1)).getD []
-def jsonR (name : String) : List RRow :=
-  ((jsonEntries.find? (fun e => e.1 == name)).map (fun e => rRowsJ jsonRead e.2.2)).getD []
-
 /-- For each of the fourteen vocabulary structs and the three sub-records: the regenerated write and
 read tables agree with each other and with the struct definition, every struct has at least its id/type
 or a first field declared (the schema is not empty), and the extractor read every statement. -/
